@@ -958,8 +958,10 @@ cert_verify_gnutls(gnutls_session_t g_session) {
 
   if (g_context->setup_data.additional_tls_setup_call_back) {
     /* Additional application setup wanted */
-    if (!g_context->setup_data.additional_tls_setup_call_back(g_session,
-                                                              &g_context->setup_data)) {
+    coap_lock_callback_ret(ret, c_session->context,
+                           g_context->setup_data.additional_tls_setup_call_back(g_session,
+                               &g_context->setup_data));
+    if (!ret) {
       goto fail;
     }
   }
@@ -1852,9 +1854,10 @@ psk_server_callback(gnutls_session_t g_session,
                  (int)lidentity.length, (const char *)lidentity.s);
 
   if (setup_data->validate_id_call_back) {
-    psk_key = setup_data->validate_id_call_back(&lidentity,
-                                                c_session,
-                                                setup_data->id_call_back_arg);
+    coap_lock_callback_ret(psk_key, c_session->context,
+                           setup_data->validate_id_call_back(&lidentity,
+                                                             c_session,
+                                                             setup_data->id_call_back_arg));
 
     coap_session_refresh_psk_key(c_session, psk_key);
   } else {
